@@ -35,7 +35,8 @@ OPS = {
     "OP_NOP1": (0, 0), "OP_NOP4": (0, 0), "OP_NOP10": (0, 0),
 }  # fmt: skip
 RARE = ["OP_RESERVED", "OP_VER", "OP_VERIF", "OP_VERNOTIF", "OP_RESERVED1", "OP_RESERVED2", "OP_CAT", "OP_SUBSTR", "OP_LEFT", "OP_RIGHT", "OP_INVERT", "OP_AND",
-        "OP_OR", "OP_XOR", "OP_2MUL", "OP_2DIV", "OP_MUL", "OP_DIV", "OP_MOD", "OP_LSHIFT", "OP_RSHIFT", "OP_RETURN", "OP_CHECKSIGADD", "OP_INVALIDOPCODE", "OP_1NEGATE"]
+        "OP_OR", "OP_XOR", "OP_2MUL", "OP_2DIV", "OP_MUL", "OP_DIV", "OP_MOD", "OP_LSHIFT", "OP_RSHIFT", "OP_RETURN", "OP_CHECKSIGADD", "OP_INVALIDOPCODE", "OP_1NEGATE",
+        "OP_CHECKMULTISIG", "OP_CHECKMULTISIGVERIFY"]  # (the last two: disabled in tapscript, and met with an arbitrary stack elsewhere)
 NUMBERS = [0, 1, 2, 16, 17, -1, 127, 128, 255, 256, 32767, 32768, 2**31 - 1, 2**31, -(2**31) + 1, -(2**31), 2**32, 500000000, 499999999, 0x400000, 0x40FFFF]
 
 
@@ -203,7 +204,7 @@ def recipe(draw, forms=None):
     r["idx"] = draw(st.integers(0, r["n_in"] - 1))
     r["amount"] = draw(st.sampled_from([0, 1, 100000, 21 * 10**14]))
     if form in ("bare", "p2sh", "p2wsh", "p2sh_p2wsh", "tapscript"):
-        tmpl = draw(st.sampled_from(["grammar", "grammar", "grammar", "if-truth", "family"] + (["budget", "budget"] if tap else [])))
+        tmpl = draw(st.sampled_from(["grammar", "grammar", "grammar", "grammar", "grammar", "grammar", "if-truth", "if-truth", "family", "family", "spend-limits"] + (["budget"] * 4 if tap else [])))
         if tmpl == "budget":
             # BIP342 sigops budget: 50 + witness size, minus 50 per executed check with a non-empty signature (whatever the key type).
             # One witness signature is re-used with OP_DUP so that the budget does not grow with the number of checks.
@@ -229,6 +230,20 @@ def recipe(draw, forms=None):
                 r["unlock"] = [["sig", j, "valid" if j in signing else "empty", draw(st.sampled_from(["default", "default", 1]))] for j in reversed(range(n_keys))]
         if tmpl == "budget":
             pass
+        elif tmpl == "spend-limits":
+            # the limits of the script forms as a spend meets them: 201 counted ops and 10000 bytes in every form but tapscript (BIP342 lifts both),
+            # 520-byte witness items, 1000 stack items at the start of a witness script
+            which = draw(st.sampled_from(["ops", "ops", "script-size", "initial-stack", "item-size"]))
+            if which == "ops":
+                r["unlock"], r["script"] = [], [["repeat", draw(st.sampled_from([200, 201, 202, 300])), ["op", "OP_NOP"]], ["num", 1]]
+            elif which == "script-size":
+                total = draw(st.sampled_from([9999, 10000, 10001, 10500]))
+                r["unlock"], r["script"] = [], [["repeat", (total - 1) // 2, ["raw", "0075"]], ["repeat", (total - 1) % 2, ["raw", "61"]], ["num", 1]]
+            elif which == "initial-stack":
+                n = draw(st.sampled_from([998, 999, 1000, 1001]))
+                r["unlock"], r["script"] = [["push", ""]] * n, [["num", 1]]  # left on the stack: CLEANSTACK where it is asked, the size limit before that
+            else:
+                r["unlock"], r["script"] = [["push", "aa" * draw(st.sampled_from([519, 520, 521]))]], [["op", "OP_DROP"], ["num", 1]]
         elif tmpl == "if-truth":
             # (non-)minimal truth values into IF/NOTIF: MINIMALIF is policy in P2WSH, consensus in tapscript, nothing elsewhere
             r["unlock"] = [["push", draw(st.sampled_from(TRUTHS))]]
@@ -264,6 +279,8 @@ def recipe(draw, forms=None):
     elif form.startswith("ms_"):
         n = draw(st.sampled_from([1, 2, 3, 3, 15, 20, 21]))
         m = draw(st.integers(0, min(n, 4)))
+        if n <= 3 and draw(st.integers(0, 11)) == 0:
+            m = n + 1  # more signatures asked for than there are keys (SIG_COUNT)
         r["n"], r["m"] = n, m
         good = draw(st.integers(0, 2)) > 0  # two thirds of the multisigs have only well-formed keys, so that signature-side rules are reached
         r["key_styles"] = [draw(st.sampled_from(["compressed", "compressed", "uncompressed"])) if good else draw(key_style()) for _ in range(min(n, 4))]
@@ -295,10 +312,13 @@ def recipe(draw, forms=None):
     else:  # witness_unknown
         r["wit_version"] = draw(st.integers(1, 16))
         r["program"] = draw(st.sampled_from([2, 20, 32, 33, 40])) * "ab"
+        if r["wit_version"] == 1 and draw(st.integers(0, 3)) == 0:
+            r["program"] = "4e73"  # pay-to-anchor
         r["p2sh_wrap"] = draw(st.booleans())
         r["witness"] = draw(st.lists(st.binary(max_size=4).map(bytes.hex), max_size=2))
     r["scriptsig_variant"] = draw(st.sampled_from(["exact", "exact", "exact", "extra-push", "pushdata1", "nonpush", "empty"]))
     r["stray_witness"] = draw(st.integers(0, 7)) == 0
+    r["drop_witness"] = draw(st.integers(0, 15)) == 0  # a witness program spent with no witness at all
     r["stray_scriptsig"] = draw(st.integers(0, 7)) == 0
     r["annex"] = draw(st.sampled_from([None, None, None, "50", "50aabb"]))
     r["leaf_version"] = draw(st.sampled_from([0xC0, 0xC0, 0xC0, 0xC2, 0x66]))
@@ -618,7 +638,9 @@ def materialize(r: dict):
             i["script_sig"] = _p2sh_scriptsig(prog, r["scriptsig_variant"]).hex()
         else:
             spent[idx]["spk"] = prog.hex()
-    if r.get("stray_witness") and not i["witness"]:
+    if r.get("drop_witness") and i["witness"]:
+        i["witness"] = []
+    if r.get("stray_witness") and not i["witness"] and not r.get("drop_witness"):
         i["witness"] = ["01"]
     if r.get("stray_scriptsig") and not i["script_sig"]:
         i["script_sig"] = "51"
@@ -697,7 +719,8 @@ def program_case(draw):
             case["script"] = [["repeat", draw(st.sampled_from([999, 1000, 1001])), ["num", 1]]]
         elif kind == "altstack-size":
             n = draw(st.sampled_from([999, 1000, 1001]))
-            case["script"] = [["repeat", n // 2, ["num", 1]], ["repeat", n // 2, ["op", "OP_TOALTSTACK"]], ["repeat", n - n // 2, ["num", 1]], ["repeat", n // 2 - 1, ["num", 1]]]
+            # 200 items moved to the altstack (200 counted ops, below the 201 limit), then pushes until stack + altstack is n: the limit is on the sum
+            case["script"] = [["repeat", 200, ["num", 1]], ["repeat", 200, ["op", "OP_TOALTSTACK"]], ["repeat", n - 200, ["num", 1]]]
         elif kind == "script-size":
             total = draw(st.sampled_from([9999, 10000, 10001]))
             # pushes of 520 bytes (523 bytes each) dropped again, padded with NOPs... no: NOPs count as ops; pad with 1-byte pushes dropped in pairs
